@@ -9,16 +9,20 @@ PROP = {'drive': ['Shape'],
                        'C07_stack_empty',
                        'C07_history_independent',
                        'C07_no_panic_partial',
+                       'C07_no_panic_nested_fixed',
                        'C07_unguarded_panics'],
  'areas': [('shape', 60000, 1500000)],
  'rule': 'distinct case lines (lookup list, GDEF, lookup indices, history of 1-5 glyph sequences); '
          'non-trivial = history with at least one non-empty sequence; every case is run on six streams '
          '(V apply, D text, D hist, D safe, G stack, G guarded)',
- 'partial': ['C07_no_panic is proved for guarded lookup lists WITHOUT contextual subtables '
-             '(C07_no_panic_partial); the full statement C07_no_panic_full (guarded lists with contexts 1-3 / '
-             'chained 1-3) needs preservation of stack well-formedness by fixStackInsert/fixStackMerge and is '
-             'not proved; it is evaluated on the real code for every generated guarded case by the direct '
-             'stream shape.safe (expected value "ok" for every guarded list, contextual or not)',
+ 'partial': ['C07_no_panic is proved for guarded lookup lists (a) without contextual subtables '
+             '(C07_no_panic_partial) and (b) with contextual subtables of all six formats, arbitrarily nested, '
+             'whose nested actions run only length-preserving lookups, i.e. no GSUB 2.1 / 4.1 as a nested '
+             'action (C07_no_panic_nested_fixed, via the stack well-formedness invariant). NOT proved: the full '
+             'statement C07_no_panic_full for guarded lists in which a nested action inserts or merges glyphs '
+             '(preservation of the invariant by fixStackInsert/fixStackMerge; this is where DESIGN 9 #33 was). '
+             'That class is evaluated on the real code for every generated guarded case by the direct stream '
+             'shape.safe (expected value "ok" for every guarded list) and by the correspondence stream',
              'all subtable types with an apply method are modelled (GSUB 1.1 1.2 2.1 3.1 4.1 8.1, '
              'SeqContext1/2/3, ChainedSeqContext1/2/3, GPOS 1.1 1.2 2.1 2.2 3.1 4.1 6.1) except GPOS 5.1, whose '
              'apply is a stub returning -1 in the repository (declared unimplemented; cases containing it are '
